@@ -5,7 +5,7 @@ CONSTANTS NP = 3
   ProbeNames <- PNames
   ProbeHws <- PHws
   InitSets <- Init3
-  MaxEarly = 2
+  MaxEarly = 1
   D = 0
 INIT Init
 NEXT Next
